@@ -8,7 +8,7 @@ import tempfile
 from ..common import Check, drive, uncps, cps
 from ..serial import outcome
 
-PATHS = ("yaml", "dicts", "merge", "files")
+PATHS = ("yaml", "dicts", "merge", "files", "file1")
 
 
 def uuid_of(k: int) -> str:
@@ -41,7 +41,7 @@ def run_one(docs, perm, path):
     from sigma.exceptions import SigmaError
 
     dicts = [doc_dict(docs[i - 1]) for i in perm]
-    r = {"perm": perm, "path": path, "ok": False, "exc": "", "sigma": False, "stage": "load", "order": [], "events": [], "out": []}
+    r = {"perm": perm, "path": path, "ok": False, "exc": "", "sigma": False, "stage": "load", "order": [], "order0": [], "events": [], "out": []}
     tmp = None
     try:
         if path == "yaml":
@@ -50,6 +50,12 @@ def run_one(docs, perm, path):
             coll = SigmaCollection.from_dicts(dicts)
         elif path == "merge":
             coll = SigmaCollection.merge([SigmaCollection.from_dicts([d], resolve_references=False) for d in dicts])
+        elif path == "file1":  # load_ruleset with ONE file that holds all documents
+            tmp = tempfile.mkdtemp(prefix="verif_c09_")
+            p = os.path.join(tmp, "all.yml")
+            with open(p, "w") as f:
+                yaml.safe_dump_all(dicts, f)
+            coll = SigmaCollection.load_ruleset([p])
         else:
             tmp = tempfile.mkdtemp(prefix="verif_c09_")
             files = []
@@ -60,6 +66,7 @@ def run_one(docs, perm, path):
                 files.append(p)
             coll = SigmaCollection.load_ruleset(files)
         r["order"] = [int(rule.title[1:]) for rule in coll.rules]
+        r["order0"] = list(r["order"])  # SigmaCollection.rules as the loader left it
         r["stage"] = "convert"
         events = []
 
